@@ -2125,10 +2125,6 @@ fn main() {
         r.finish();
     }
     let cfgs = configs(&r);
-    if std::env::var("C15_BENCH").is_ok() {
-        bench(&r, &cfgs[0]);
-        return;
-    }
     empty_parent_probe(&r, &cfgs[0]);
     // Configurations are independent searches: run them side by side (each BFS level is itself
     // expanded in parallel; all counters are order-independent sums).
@@ -2169,53 +2165,4 @@ fn main() {
         r.guard("settlement_into_strand_lane", c("settlements_into_strand_lane") > 0);
     }
     r.finish();
-}
-
-fn bench(r: &Report, cfg: &Cfg) {
-    let cx = Ctx { r, cfg, replaying: true };
-    let mut st = root_state().unwrap();
-    let mut path = Vec::new();
-    for o in ["P1", "F1<0@0", "S1:0", "S1:1", "P0"] {
-        let op = Op::dec(o).unwrap();
-        let t = std::time::Instant::now();
-        st = step(&cx, &st, &op, &path).unwrap();
-        println!("step {o}: {:?}", t.elapsed());
-        path.push(op);
-    }
-    let n = 50;
-    let t = std::time::Instant::now();
-    for _ in 0..n { let _ = st.rt.clone(); }
-    println!("clone rt: {:?}", t.elapsed() / n);
-    let t = std::time::Instant::now();
-    for _ in 0..n { let _ = parts(&st.rt); }
-    println!("parts: {:?}", t.elapsed() / n);
-    let t = std::time::Instant::now();
-    for _ in 0..n { let _ = St::of(st.rt.clone()); }
-    println!("St::of(clone): {:?}", t.elapsed() / n);
-    let t = std::time::Instant::now();
-    for _ in 0..n { let _ = SettlementService::plan(&st.rt.runtime, &st.rt.provenance, sid(1)); }
-    println!("plan: {:?}", t.elapsed() / n);
-    let t = std::time::Instant::now();
-    for _ in 0..n { let mut rt = st.rt.clone(); let _ = SettlementService::settle(&mut rt.runtime, &mut rt.provenance, sid(1)); }
-    println!("clone+settle: {:?}", t.elapsed() / n);
-    let t = std::time::Instant::now();
-    for _ in 0..n { let _ = fixture::fresh_engine(SchedulerKind::Radix, 1); }
-    println!("fresh_engine: {:?}", t.elapsed() / n);
-    let t = std::time::Instant::now();
-    for _ in 0..n { let mut rt = st.rt.clone(); let _ = rt.runtime.ingest(fixture::intent_default(parent(), &cfg.parent[2])); let _ = rt.super_tick(SchedulerKind::Radix); }
-    println!("clone+ingest+super_tick: {:?}", t.elapsed() / n);
-    let t = std::time::Instant::now();
-    for _ in 0..n { probes(&cx, &st, &path); }
-    println!("probes(shallow): {:?}", t.elapsed() / n);
-    let op = Op::dec("T1d").unwrap();
-    let t = std::time::Instant::now();
-    for _ in 0..n { let _ = step(&cx, &st, &op, &path); }
-    println!("step settle: {:?}", t.elapsed() / n);
-    let op = Op::dec("P2").unwrap();
-    let t = std::time::Instant::now();
-    for _ in 0..n { let _ = step(&cx, &st, &op, &path); }
-    println!("step ptick: {:?}", t.elapsed() / n);
-    let t = std::time::Instant::now();
-    for _ in 0..n { let _ = replay_abs(&st.rt, parent(), 2); }
-    println!("replay_abs: {:?}", t.elapsed() / n);
 }
